@@ -21,7 +21,17 @@
 (* nodes into mem), CommitBegin / Descend / PutNode / Flush / CommitEnd    *)
 (* (NodeDatabase.Commit: post-order walk, a batch write whenever the batch *)
 (* holds Ideal puts, a final write, uncache only after it), Crash (process *)
-(* death: mem, batch and the walk are lost, disk stays).                   *)
+(* death: mem, batch and the walk are lost, disk stays), WriteFails (a     *)
+(* physical write returns an error - transient I/O error, disk full - and  *)
+(* the process goes on: nothing of that batch reaches the disk, Commit     *)
+(* reports the failure, the memory layer keeps its nodes, and further      *)
+(* commits follow: a retry of the same root or the next block on top).     *)
+(*                                                                         *)
+(* Dedup = TRUE is a second negative control: a "put each shared node only *)
+(* once" flag kept on the cached node (set when the node is put into a     *)
+(* batch, the walk skips flagged nodes, the flags die with uncache / a     *)
+(* crash).  It is equivalent as long as no write fails; with WriteFails    *)
+(* TLC must find CommitDurable violated.                                   *)
 (*                                                                         *)
 (* Order selects the walk: "post" is what the code does and the property   *)
 (* needs (children are put before their parent, the root last); "pre" is   *)
@@ -33,10 +43,12 @@ CONSTANTS Nodes,      \* 1..N
           Ideal,      \* puts per batch before it is written (IdealBatchSize)
           MaxCommits, \* bound on the number of Commit calls
           Crashes,    \* BOOLEAN: explore process death at any point
-          Order       \* "post" | "pre"
+          Order,      \* "post" | "pre"
+          WriteFailures, \* BOOLEAN: explore physical writes that return an error
+          Dedup       \* BOOLEAN: the flagged-node shortcut (negative control)
 
-VARIABLES children, mem, disk, batch, stack, durable, pc, commits, target
-vars == <<children, mem, disk, batch, stack, durable, pc, commits, target>>
+VARIABLES children, mem, disk, batch, stack, durable, pc, commits, target, flushed
+vars == <<children, mem, disk, batch, stack, durable, pc, commits, target, flushed>>
 
 RECURSIVE ClosureOf(_, _)
 ClosureOf(ch, n) == {n} \cup UNION {ClosureOf(ch, c) : c \in ch[n]}
@@ -45,14 +57,14 @@ Closure(n) == ClosureOf(children, n)
 Init == /\ children \in [Nodes -> SUBSET Nodes]
         /\ \A n \in Nodes : \A c \in children[n] : c < n
         /\ mem = {} /\ disk = {} /\ batch = {} /\ stack = <<>>
-        /\ durable = {} /\ pc = "idle" /\ commits = 0 /\ target = 0
+        /\ durable = {} /\ pc = "idle" /\ commits = 0 /\ target = 0 /\ flushed = {}
 
 (* Trie.Commit: every node of the trie that is not known yet enters mem *)
 InsertTrie(r) ==
   /\ pc = "idle"
   /\ r \notin mem \cup disk
   /\ mem' = mem \cup (Closure(r) \ disk)
-  /\ UNCHANGED <<children, disk, batch, stack, durable, pc, commits, target>>
+  /\ UNCHANGED <<children, disk, batch, stack, durable, pc, commits, target, flushed>>
 
 CommitBegin(r) ==
   /\ pc = "idle" /\ commits < MaxCommits
@@ -61,40 +73,42 @@ CommitBegin(r) ==
   /\ batch' = {}
   /\ stack' = << <<r, children[r]>> >>
   /\ mem' = mem
-  /\ UNCHANGED <<children, disk, durable>>
+  /\ UNCHANGED <<children, disk, durable, flushed>>
 
 Top == stack[Len(stack)]
 Pop == SubSeq(stack, 1, Len(stack) - 1)
 
 (* commit(hash): "if the node does not exist, it's a previously committed node" *)
 SkipKnown ==
-  /\ pc = "walk" /\ stack # <<>> /\ Top[1] \notin mem
+  /\ pc = "walk" /\ stack # <<>> /\ (Top[1] \notin mem \/ (Dedup /\ Top[1] \in flushed))
   /\ stack' = Pop
-  /\ UNCHANGED <<children, mem, disk, batch, durable, pc, commits, target>>
+  /\ UNCHANGED <<children, mem, disk, batch, durable, pc, commits, target, flushed>>
 
 PutIt(n) == /\ batch' = batch \cup {n}
+            /\ flushed' = IF Dedup THEN flushed \cup {n} ELSE flushed
             /\ pc' = IF Cardinality(batch') >= Ideal THEN "flush" ELSE "walk"
+Walkable(n) == n \in mem /\ ~(Dedup /\ n \in flushed)
 
 Descend ==
-  /\ pc = "walk" /\ stack # <<>> /\ Top[1] \in mem /\ Top[2] # {}
+  /\ pc = "walk" /\ stack # <<>> /\ Walkable(Top[1]) /\ Top[2] # {}
   /\ \E c \in Top[2] :
        stack' = Append([stack EXCEPT ![Len(stack)] = <<Top[1], Top[2] \ {c}>>], <<c, children[c]>>)
   /\ (IF Order = "pre" /\ Top[2] = children[Top[1]]
         THEN PutIt(Top[1])            \* negative control: parent before its children
-        ELSE UNCHANGED <<batch, pc>>)
+        ELSE UNCHANGED <<batch, pc, flushed>>)
   /\ UNCHANGED <<children, mem, disk, durable, commits, target>>
 
 PutNode ==
-  /\ pc = "walk" /\ stack # <<>> /\ Top[1] \in mem /\ Top[2] = {}
+  /\ pc = "walk" /\ stack # <<>> /\ Walkable(Top[1]) /\ Top[2] = {}
   /\ stack' = Pop
-  /\ (IF Order = "pre" /\ children[Top[1]] # {} THEN UNCHANGED <<batch, pc>> ELSE PutIt(Top[1]))
+  /\ (IF Order = "pre" /\ children[Top[1]] # {} THEN UNCHANGED <<batch, pc, flushed>> ELSE PutIt(Top[1]))
   /\ UNCHANGED <<children, mem, disk, durable, commits, target>>
 
 (* batch.Write(): atomic *)
 Flush ==
   /\ pc = "flush"
   /\ disk' = disk \cup batch /\ batch' = {} /\ pc' = "walk"
-  /\ UNCHANGED <<children, mem, stack, durable, commits, target>>
+  /\ UNCHANGED <<children, mem, stack, durable, commits, target, flushed>>
 
 (* the final batch.Write(), then uncache, then Commit returns nil *)
 CommitEnd ==
@@ -103,18 +117,27 @@ CommitEnd ==
   /\ mem' = mem \ Closure(target)
   /\ durable' = durable \cup {target}
   /\ pc' = "idle"
+  /\ flushed' = flushed \ Closure(target)          \* the flags go with the uncached nodes
   /\ UNCHANGED <<children, stack, commits, target>>
+
+(* a physical write (one in the middle of the walk, or the final one) returns an error: *)
+(* nothing of the batch is on disk, Commit returns the error without uncaching          *)
+WriteFails ==
+  /\ WriteFailures
+  /\ (pc = "flush" \/ (pc = "walk" /\ stack = <<>>))
+  /\ batch' = {} /\ stack' = <<>> /\ pc' = "idle"
+  /\ UNCHANGED <<children, mem, disk, durable, commits, target, flushed>>
 
 Crash ==
   /\ Crashes
   /\ (pc # "idle" \/ mem # {})
-  /\ mem' = {} /\ batch' = {} /\ stack' = <<>> /\ pc' = "idle"
+  /\ mem' = {} /\ batch' = {} /\ stack' = <<>> /\ pc' = "idle" /\ flushed' = {}
   /\ UNCHANGED <<children, disk, durable, commits, target>>
 
 Next ==
   \/ \E r \in Nodes : InsertTrie(r)
   \/ \E r \in Nodes : CommitBegin(r)
-  \/ SkipKnown \/ Descend \/ PutNode \/ Flush \/ CommitEnd \/ Crash
+  \/ SkipKnown \/ Descend \/ PutNode \/ Flush \/ CommitEnd \/ Crash \/ WriteFails
 
 Spec == Init /\ [][Next]_vars
 
